@@ -12,11 +12,11 @@ CONSTANTS NV,       \* Values = 1..NV
 VARIABLE hist
 
 KSeq == <<"address", "asset_id", "contract_id", "script_code", "predicate_code">>
-Masks == {{1, 2, 3, 4, 5}, {1, 4}, {2, 3}, {3, 5}}
+Masks == {{1, 2, 3, 4, 5}, {1, 4}, {2, 3, 5}}
 Shift(v, s) == IF v = Default THEN Default ELSE ((v - 1 + s) % NV) + 1
 
 SimCompress ==
-  \E U \in SeqsUpTo(Values \cup {Default}, MaxLen) : \E m \in Masks : \E rot \in 0..1 :
+  \E U \in SeqsUpTo(Values \cup {Default}, MaxLen) : \E m \in Masks : \E rot \in {1} :
   \E d \in {0, 1, Retention + 1} :
     LET ts == maxts + d
         used == [ks \in KS |->
@@ -27,11 +27,10 @@ SimCompress ==
           THEN CompressBlock(used, ts, [ks \in KS |-> <<>>])
           ELSE CompressBlock(used, ts, [ks \in KS |-> Compressed(ks, used[ks], ts).ch])
 
-\* the simulator picks uniformly among the top-level disjuncts: the dice weights the action kinds
-SimNext == /\ \E dice \in 1..10 :
-                IF dice <= 6 THEN SimCompress
-                ELSE IF dice <= 8 THEN DecompressBlock
-                ELSE \E ks \in KS : \E k \in JumpKeys : Jump(ks, k)
+\* (the simulator picks among the top-level disjuncts: a cursor jump only directly after a block)
+SimNext == /\ \/ SimCompress
+              \/ DecompressBlock
+              \/ act.name = "CompressBlock" /\ \E ks \in KS : \E k \in JumpKeys : Jump(ks, k)
            /\ hist' = Append(hist, act')
 SimInit == Init /\ hist = <<>>
 SimSpec == SimInit /\ [][SimNext]_<<vars, act, hist>>
